@@ -178,6 +178,15 @@ func switchSuite() []swModel {
 	add("class across the surrogate block", "'a' 'b' / [\\uD7FE-\\uE001] 'x' / [\\u0100-\\u0A00] 'd'", func(m *model) *Obj {
 		return m.alt(m.seq(m.char("a"), m.char("b")), m.seq(m.rng("\ud7fe", "\ue001"), m.char("x")), m.seq(m.rng("\u0100", "\u0a00"), m.char("d")))
 	})
+	add("class at the last code point", "'\\U0010FFFF' 'x' / 'b' 'y' / 'c' 'z'", func(m *model) *Obj {
+		return m.alt(m.seq(m.char("\U0010FFFF"), m.char("x")), m.seq(m.char("b"), m.char("y")), m.seq(m.char("c"), m.char("z")))
+	})
+	add("class at the last code point", "[\\U0010FFFE-\\U0010FFFF] 'x' / 'b' 'y' / [c-f] 'z'", func(m *model) *Obj {
+		return m.alt(m.seq(m.rng("\U0010FFFE", "\U0010FFFF"), m.char("x")), m.seq(m.char("b"), m.char("y")), m.seq(m.rng("c", "f"), m.char("z")))
+	})
+	add("class at the first code point", "'\\x00' 'x' / [\\x01-\\x02] 'y' / [c-f] 'z'", func(m *model) *Obj {
+		return m.alt(m.seq(m.char("\x00"), m.char("x")), m.seq(m.rng("\x01", "\x02"), m.char("y")), m.seq(m.rng("c", "f"), m.char("z")))
+	})
 	add("no rewrite (dot intersects)", "'a' e / 'b' e / . e", func(m *model) *Obj {
 		return m.alt(m.seq(m.char("a"), e(m)), m.seq(m.char("b"), e(m)), m.seq(m.dot(), e(m)))
 	})
